@@ -298,6 +298,12 @@ fn part_a(acc: &mut Acc, tier: Tier) -> usize {
         if resp.body_error.is_some() {
             a.fail(&format!("C03/body-error/{}", d.name()), order, id(), format!("response body failed: {:?}", resp.body_error), json!({}));
         }
+        // what the response body declares about its own size is what a server frames the response from when there is no
+        // Content-Length header: it must agree with the bytes that follow
+        if let Some(f) = &resp.framing_fault {
+            a.outcome("raw: BODY DECLARES ANOTHER SIZE THAN IT DELIVERS");
+            a.fail(&format!("C03/declared-body-size-disagrees-with-body/{}", d.name()), order, id(), format!("{} ({lab}): {f}", d.name()), json!({"headers": format!("{:?}", resp.headers)}));
+        }
         // a streamed member arrives byte for byte, however the backend chunked it, and agrees with Content-Length
         if let Some(want) = block_on(d.output_body(alts)) {
             if base_method(d) != "HEAD" {
@@ -493,7 +499,7 @@ async fn consume(svc: &s3s::service::S3Service, req: s3s::HttpRequest, consumer:
             }
         }
     }
-    Ok(Timed { resp: Resp { status: parts.status, headers: parts.headers, frames, trailers, body_error }, end_ms, data_after_end, hang })
+    Ok(Timed { resp: Resp { status: parts.status, headers: parts.headers, frames, trailers, body_error, framing_fault: None }, end_ms, data_after_end, hang })
 }
 
 /// the document after an optional XML declaration and any XML white space around it (None: something else comes first)
@@ -774,7 +780,7 @@ pub fn run(ctx: &Ctx) -> (Acc, Report) {
     let k = ctx.tier.pick(1, 2);
     let rep = Report {
         level: "exploration",
-        rule: format!("(a) 95 operations x (base() + every single deviation of every modelled output member over the alphabet of its wire position, timestamps incl. one with a +08:00 offset{}) x {{direct, proxied}}: a scripted backend returns the value, aws-sdk-s3 decodes the adapter's response, field-wise comparison (streams by bytes); the raw response of every case against the model's success status (206 iff content range) and XML well-formedness. (meta) 95 operations x 5 extra-header sets x 5 status overrides. (b) CompleteMultipartUpload keep-alive under the paused clock: full product of outcomes x backend completion delays x consumer disciplines x extra header; every execution runs to the end of the stream. Distinct = distinct (outcome, body, trailers, filler count).", if k == 2 { " + every pair of deviations of different members" } else { "" }),
+        rule: format!("(a) 95 operations x (base() + every single deviation of every modelled output member over the alphabet of its wire position, timestamps incl. one with a +08:00 offset{}) x {{direct, proxied}}: a scripted backend returns the value, aws-sdk-s3 decodes the adapter's response, field-wise comparison (streams by bytes); the raw response of every case against the model's success status (206 iff content range) and XML well-formedness, and what the response body declares about its own size (size hint and end-of-stream flag, asked before every frame) against the bytes it delivers. (meta) 95 operations x 5 extra-header sets x 5 status overrides. (b) CompleteMultipartUpload keep-alive under the paused clock: full product of outcomes x backend completion delays x consumer disciplines x extra header; every execution runs to the end of the stream. Distinct = distinct (outcome, body, trailers, filler count).", if k == 2 { " + every pair of deviations of different members" } else { "" }),
         exhaustive: true,
         extra: serde_json::Value::Object(extra),
         assumptions: vec![
